@@ -59,6 +59,17 @@ def fixed_module():
                 mem('p', {'k': 'STRING', 'sk': 'PrintableString', 'size': None, 'alpha': None}, 'optional'),
                 mem('u', {'k': 'STRING', 'sk': 'UTF8String', 'size': S(1, 2), 'alpha': None}, 'optional'),
             ]}),
+        # the same referenced type under the same component name at a constrained and an unconstrained
+        # site: the library caches the compiled referenced type per (type, component name)
+        ('Q1', {'k': 'SEQUENCE', 'ext': None, 'root': [
+            mem('x', ref('L0')), mem('y', ref('I0')), mem('name', ref('N0')), mem('lab', ref('Lab'))]}),
+        ('Q2', {'k': 'SEQUENCE', 'ext': None, 'root': [
+            mem('name', ref('N0', size=S(2, 2))), mem('lab', ref('Lab', size=S(2, 2)))]}),
+        ('Q3', {'k': 'SET', 'ext': None, 'root': [
+            mem('name', ref('N0', alpha=list('abc'), alpha_ranges=False)), mem('y', ref('I0', c=S(0, 5)))]}),
+        ('Q4', {'k': 'SEQUENCE OF', 'elem': ref('N0'), 'size': None}),
+        ('Q5', {'k': 'CHOICE', 'ext': None, 'root': [mem('name', ref('N0')), mem('x', ref('L0', size=S(3, 3)))]}),
+        ('Lab', {'k': 'OCTET STRING', 'size': S(0, 8)}),
         ('R1', {'k': 'SEQUENCE', 'ext': None, 'root': [
             mem('v', I(0, 3)), mem('next', ref('R1'), 'optional')]}),
         ('R2', {'k': 'SEQUENCE', 'ext': None, 'root': [
@@ -73,6 +84,13 @@ def fixed_module():
         'S1': [{'a': 10, 'b': -5, 'c0': 7, 'd': 100, 'x': [True], 'y': 5, 'o': b'ab', 'p': 'Ab 1', 'u': 'å',
                 'c': ('l', [(b'\xa0', 3)])},
                {'a': -2 ** 70, 'b': 2 ** 70, 'c0': 7, 'd': 1000, 'y': 0, 'c': ('s', '12 3')}],
+        'Q1': [{'x': [True, False, True, True], 'y': 100, 'name': 'hello z', 'lab': b'123'},
+               {'x': [], 'y': -7, 'name': '', 'lab': b'12345678'}],
+        'Q2': [{'name': 'zz', 'lab': b'12'}],
+        'Q3': [{'name': 'abcabc', 'y': 5}],
+        'Q4': [['hello', 'z', '']],
+        'Q5': [('name', 'hello'), ('x', [True, True, True])],
+        'Lab': [b'12345678'],
         'R1': [{'v': 1, 'next': {'v': 2, 'next': {'v': 3, 'next': {'v': 0}}}}],
         'R2': [{'v': 1, 'kids': [{'v': 2, 'kids': [{'v': 3, 'kids': []}]}, {'v': 0, 'kids': []}]}],
     }
@@ -201,7 +219,7 @@ def run_module(ctx, mod, em, text, g, given_values, budget, batches, dec_budget)
                 for label, new in O.boundary_mutants(g, rng, rt, st, sv):
                     cases.append((name, G.replace_at(base, path, new), label, names))
     if len(cases) > budget:
-        keep = [c for c in cases if c[2] == 'base'][:4]
+        keep = [c for c in cases if c[2] == 'base']       # every base value (also of the twin sites)
         rest = [c for c in cases if c[2] != 'base']
         rng.shuffle(rest)
         cases = keep + rest[:budget - len(keep)]
